@@ -11,7 +11,9 @@
 //	   (every answer sequence with <= 1 (2) non-default answers);
 //	D  interactive histories of <= 2 (3) lines over a command grammar plus noise,
 //	   each followed by a sentinel command that must still answer;
-//	E  every web handler x a query-string menu, then a sentinel request.
+//	E  every web handler x a query-string menu, then a sentinel request;
+//	F  odd profiles x the options acting on the fetched profile; G option pairs
+//	   on a diamond call graph; H list/weblist/disasm/peek with address arguments.
 //
 // Oracle: the outcome is output or an error; no panic (also none in goroutines
 // pprof starts itself: each case is journalled so that a dying worker is
@@ -444,6 +446,37 @@ func Run(c *vk.Ctx) {
 							runOne(c, witness{Family: "B2", Command: cmd, Options: []string{o1 + "=" + v1, o2 + "=" + v2}}, rich, cmd, []string{o1 + "=" + v1, o2 + "=" + v2}, nil, "option-pair")
 						}
 					}
+				}
+			}
+		}
+	}
+	// H: the commands that take a symbol take an address too: every address of the rich profile (symbolized,
+	// inlined, unsymbolized), in hex and decimal, addresses outside it, and the small numbers given to
+	// locations without an address, x every odd profile, with and without an object tool
+	addrArgs := []string{"0x1010", "0x1020", "0x8030", "0x8040", "32832", "4112", "0x9999", "0", "0x0", "1", "2", "3", "18446744073709551615", "0x10000000000000000"}
+	addrProfiles := []struct {
+		name string
+		data []byte
+	}{{"rich", rich}}
+	for _, o := range od {
+		if data, ok := encode(o); ok {
+			addrProfiles = append(addrProfiles, struct {
+				name string
+				data []byte
+			}{o.name, data})
+		}
+	}
+	for _, ap := range addrProfiles {
+		for _, verb := range []string{"list", "weblist", "disasm", "peek"} {
+			for _, arg := range addrArgs {
+				for _, obj := range []plugin.ObjTool{nil, drive.FakeObj{}} {
+					if c.Mine(idx) {
+						cmd := []string{verb + "=" + arg}
+						runOne(c, witness{Family: "H", Profile: ap.name, Command: cmd, Tool: []int{map[bool]int{false: 0, true: 1}[obj != nil]}}, ap.data, cmd, nil, obj, "address-argument/"+verb)
+						c.Nontrivial("H|" + ap.name + verb + arg + fmt.Sprint(obj != nil))
+						c.Count("family/address-argument", 1)
+					}
+					idx++
 				}
 			}
 		}
